@@ -116,3 +116,61 @@ def conversation(sfl: int, cfl: int, ti: int, n_c2s: int, n_s2c: int, idle: int,
 
 
 from vf.validate.stubs import ALL as VALIDATE  # noqa: E402  (stub-vs-real conformance, run before the obligations)
+
+
+class _SeamJson:
+    """json seam: only the OPEN packet of the handshake parses as JSON; every other text stays text."""
+    @staticmethod
+    def loads(s, **kw):
+        from engineio import json as _j
+        if s[:6] == '{"sid"':
+            return _j.loads(s, **kw)
+        raise ValueError('not json')
+
+    @staticmethod
+    def dumps(obj, **kw):
+        from engineio import json as _j
+        return _j.dumps(obj, **kw)
+
+
+def _symbolic_roundtrip(sfl, cfl, ws, text):
+    from engineio import packet as _packet
+    k = Kernel()
+    old = _packet.Packet.json
+    srv = (ThreadedSut if sfl == 0 else AsyncSut)(k=k, async_handlers=False, ping_interval=PI, ping_timeout=PT)
+    cl = (ThreadedClientSut if cfl == 0 else AsyncClientSut)(k, ServerPeer(srv))
+    st = dict(server=srv.flavour, client=cl.flavour, transport='websocket' if ws else 'polling')
+    try:
+        _packet.Packet.json = _SeamJson
+        h = cl.call('connect', 'http://h.example', transports=['websocket'] if ws else ['polling'])
+        k.settle()
+        if h.exc is not None or cl.state() != 'connected':
+            return fail(PROP, 'CONNECT', 'connect: %r' % (h.exc,), **st)
+        sid = srv.sids()[0]
+        cl.call('send', text)
+        srv.app_send(sid, text)
+        k.settle()
+        k.run(until=k.now + 1)
+        got_s = [a for kk, s_, a in srv.events if kk == 'message']
+        got_c = [a for kk, a in cl.events if kk == 'message']
+        if got_s != [text]:
+            return fail(PROP, 'CLIENT-TO-SERVER', 'client sent %r, server received %r' % (text, got_s), **st)
+        if got_c != [text]:
+            return fail(PROP, 'SERVER-TO-CLIENT', 'server sent %r, client received %r' % (text, got_c), **st)
+        return ''
+    finally:
+        _packet.Packet.json = old
+        cl.close()
+        srv.close()
+
+
+@cond(quick=dict(S=2, SP=1, timeout=170, parts=dict(S_=[0, 1], C=[0, 1], WS=[0, 1])), thorough=dict(S=4, SP=2, timeout=1500, parts=dict(S_=[0, 1], C=[0, 1], WS=[0, 1])))
+def symbolic_text_roundtrip(sfl: int, cfl: int, ws: int, text: str) -> str:
+    """
+    pre: sfl == P.S_ and cfl == P.C and ws == P.WS and len(text) <= (P.S if P.WS else P.SP)
+    post: _ == ''
+    """
+    # the payload is a SYMBOLIC text travelling client -> server and server -> client through both real implementations
+    if '\x1e' in text:
+        return ''
+    return verdict(_symbolic_roundtrip(sfl, cfl, bool(ws), text))
